@@ -1835,7 +1835,16 @@ impl DtlsInner {
                         } else {
                             (&keys.server_write_key, &keys.server_write_iv)
                         };
-                        let full_seq = ((ctx.epoch as u64) << 48) | ctx.sequence_number;
+                        // Application data has been numbered from `write_seq` since the
+                        // handshake finished; take the alert's number from the same counter.
+                        let handshake_done =
+                            ctx.epoch > 0 && self.write_epoch.load(Ordering::SeqCst) == ctx.epoch;
+                        let alert_seq = if handshake_done {
+                            self.write_seq.fetch_add(1, Ordering::SeqCst)
+                        } else {
+                            ctx.sequence_number
+                        };
+                        let full_seq = ((ctx.epoch as u64) << 48) | alert_seq;
                         if let Ok(encrypted) = encrypt_record(
                             ContentType::Alert,
                             ProtocolVersion::DTLS_1_2,
@@ -1848,7 +1857,7 @@ impl DtlsInner {
                                 content_type: ContentType::Alert,
                                 version: ProtocolVersion::DTLS_1_2,
                                 epoch: ctx.epoch,
-                                sequence_number: ctx.sequence_number,
+                                sequence_number: alert_seq,
                                 payload: Bytes::from(encrypted),
                             };
                             let mut buf = BytesMut::new();
